@@ -2,11 +2,11 @@
 (* Model-checking instances of Blackboard.tla.  One TLC run explores several  *)
 (* scenarios; a scenario is a service configuration together with the         *)
 (* universe of program-level ids explored for it (MCUniv):                    *)
-(*   readers : max_readers 0 / 2 (3 for deep), 3 (4) reader ids, 2 writer ids,*)
+(*   readers : max_readers 0 / 2 (deep: 3, 4), one more reader id, one writer, *)
 (*             one existing and one missing key                               *)
 (*   nodes   : max_nodes 0 / 2 (3), 3 (4) nodes, opener requirements 0 / 2 / 3*)
-(*   values  : one key, updates / loans / discards up to version 2, readers   *)
-(*   handles : two keys, two writer ids, handle exclusivity per key           *)
+(*   values  : one key, updates / loans / discards up to version 2, a reader   *)
+(*   handles : two keys + a missing one, two writer ids, handle exclusivity    *)
 (* MF_Blackboard_*.cfg plant one defect each and MUST be refuted (vacuity     *)
 (* guard of the invariants).                                                  *)
 EXTENDS Blackboard
@@ -16,13 +16,14 @@ U(W, R, N, K, Q, m) == [W |-> W, R |-> R, N |-> N, K |-> K, Q |-> Q, maxv |-> m]
 
 CfgQuick == {Cfg(1, 0, 1), Cfg(1, 2, 1), Cfg(1, 1, 0), Cfg(1, 1, 2), Cfg(1, 1, 1), Cfg(2, 1, 1)}
 CfgDeep == CfgQuick \cup {Cfg(1, 3, 1), Cfg(1, 4, 1), Cfg(1, 1, 3), Cfg(1, 1, 4), Cfg(1, 2, 2)}
+CfgLimits == {Cfg(1, 0, 1), Cfg(1, 2, 1), Cfg(1, 1, 0), Cfg(1, 1, 2)}     \* limit layer only (C08)
 CfgFault == {Cfg(1, 1, 2)}
 
 MCUniv(c) ==
-    IF c = Cfg(1, 1, 1) THEN U({1, 2}, {1}, {1}, {1}, {0}, 2)                         \* values
-    ELSE IF c = Cfg(2, 1, 1) THEN U({1, 2}, {}, {1}, {1, 2}, {0}, 1)                  \* handles
+    IF c = Cfg(1, 1, 1) THEN U({1}, {1}, {1}, {1}, {0}, 2)                            \* values
+    ELSE IF c = Cfg(2, 1, 1) THEN U({1, 2}, {}, {1}, {1, 2, 3}, {0}, 0)               \* handles (key 3 is missing)
     ELSE IF c = Cfg(1, 2, 2) THEN U({1}, {1, 2, 3}, {1, 2, 3}, {1}, {0}, 0)           \* readers x nodes
-    ELSE IF c.nreq = 1 THEN U({1, 2}, 1..(Eff(c.rreq) + 1), {1}, {1, 2}, {0}, 0)      \* readers
-    ELSE U({1}, {1}, 1..(Eff(c.nreq) + 1), {1}, {0, Eff(c.nreq), Eff(c.nreq) + 1}, 0) \* nodes
+    ELSE IF c.nreq = 1 THEN U({1}, 1..(Eff(c.rreq) + 1), {1}, {1, 2}, {0}, 0)         \* readers (key 2 is missing)
+    ELSE U({}, {1}, 1..(Eff(c.nreq) + 1), {1}, {0, Eff(c.nreq) + 1}, 0)               \* nodes
 FaultUniv(c) == U({1, 2}, {1, 2}, {1, 2}, {1}, {0}, 2)
 =============================================================================
